@@ -26,8 +26,11 @@ import (
 const c15L = 4096 // small enough for multi-leaf files, large enough to keep cafs.New cheap
 
 var (
-	c15X  = map[string][]byte{"a": pattern("pos", 2*c15L+100, c15L), "x/only": []byte("only in X")}
-	c15Y  = map[string][]byte{"a": pattern("pos", 2*c15L+100, c15L), "y/prefix": pattern("pos", c15L+50, c15L), "y/only": []byte("only in Y")} // shares file a and the first leaf of y/prefix
+	// X and Y share file a (already stored by B0: the dedup path), the first leaf of y/prefix (ditto) and file n, whose
+	// blobs are in the store of neither: both uploaders write the same NEW blobs concurrently
+	c15N  = []byte("new content that both concurrent uploaders store, present in no earlier bundle")
+	c15X  = map[string][]byte{"a": pattern("pos", 2*c15L+100, c15L), "x/only": []byte("only in X"), "n": c15N}
+	c15Y  = map[string][]byte{"a": pattern("pos", 2*c15L+100, c15L), "y/prefix": pattern("pos", c15L+50, c15L), "y/only": []byte("only in Y"), "n": c15N}
 	c15B0 = map[string][]byte{"a": pattern("pos", 2*c15L+100, c15L), "old": []byte("previously committed")}
 )
 
